@@ -1,9 +1,13 @@
 package props
 
 import (
+	"bytes"
 	"crypto/rsa"
+	"crypto/sha1"
 	"crypto/tls"
 	"crypto/x509"
+	"encoding/base64"
+	"encoding/pem"
 	"fmt"
 	"strings"
 	"time"
@@ -207,6 +211,58 @@ func runC07(c *mon.Ctx) {
 			cs.Outcome("rejected")
 		}
 		cs.Sample(map[string]any{"err": fmt.Sprint(verr)})
+	}
+
+	// ---- a foreign certificate that agrees with the SP's in an abbreviated fingerprint (fixture) ----
+	if cs := c.Begin("fingerprint-prefix-twin", 0); cs != nil {
+		func() {
+			kb, _ := pem.Decode([]byte(strings.TrimSpace(fpTwinSPKeyPEM)))
+			cb, _ := pem.Decode([]byte(strings.TrimSpace(fpTwinSPCertPEM)))
+			foreignDER, err := base64.StdEncoding.DecodeString(strings.Join(strings.Fields(fpTwinForeignCertB64), ""))
+			if kb == nil || cb == nil || err != nil {
+				cs.Inconclusive("fixture-unreadable")
+				return
+			}
+			key, err1 := x509.ParsePKCS1PrivateKey(kb.Bytes)
+			spx, err2 := x509.ParseCertificate(cb.Bytes)
+			fx, err3 := x509.ParseCertificate(foreignDER)
+			if err1 != nil || err2 != nil || err3 != nil {
+				cs.Inconclusive("fixture-unreadable")
+				return
+			}
+			h1, h2 := sha1.Sum(cb.Bytes), sha1.Sum(foreignDER)
+			if !bytes.Equal(h1[:4], h2[:4]) || bytes.Equal(cb.Bytes, foreignDER) {
+				cs.Inconclusive("fixture-is-not-a-prefix-twin")
+				return
+			}
+			spc := &sim.Cert{Key: &sim.Key{Name: "fptwin", Signer: key}, DER: cb.Bytes, X509: spx}
+			foreign := &sim.Cert{Key: spc.Key, DER: foreignDER, X509: fx}
+			now := spx.NotBefore.Add(time.Hour)
+			wt := NewWorld(now)
+			signer := wt.IdP[2]
+			rec := sim.GenuineResponse(wt.Env, 1)
+			rec.Assertions[0].Sig = sim.DefaultSig(signer.Key, signer)
+			rec.Assertions[0].Enc = &sim.EncSpec{DataAlg: sim.AES128GCM, KeyAlg: sim.RSAOAEP, To: spc, Recipient: foreign}
+			doc, err := sim.BuildResponse(rec, sim.PlainStyle())
+			if err != nil {
+				cs.Inconclusive("simulator-error")
+				return
+			}
+			cs.Desc("SP certificate SHA-1 %x..., named recipient %q SHA-1 %x...", h1[:6], fx.Subject.CommonName, h2[:6])
+			cs.Input([]byte(doc))
+			cs.Nontrivial("fingerprint-prefix-twin")
+			for _, opt := range []bool{false, true} {
+				sp, _, _ := NewSP(now, signer)
+				sp.SPKeyStore = dsig.TLSCertKeyStore(tls.Certificate{Certificate: [][]byte{cb.Bytes}, PrivateKey: key})
+				sp.ValidateEncryptionCert = opt
+				if _, verr := sp.ValidateEncodedResponse(sim.Encode(doc, sim.RawLevel)); verr == nil {
+					cs.Outcome("wrongly-decrypted")
+					cs.Violation("encrypted-untrusted-accepted:recipient-fingerprint-twin", "the EncryptedKey names a foreign certificate (CN=%s) that shares only the first four SHA-1 bytes with the SP certificate, yet the assertion was decrypted and accepted", fx.Subject.CommonName)
+					return
+				}
+			}
+			cs.Outcome("refused")
+		}()
 	}
 
 	// ---- SP configuration: ValidateEncryptionCert x clock x certificate ----
